@@ -182,3 +182,15 @@ Fixpoint gon_search (fuel : nat) (g : graph) (cap : nat) (ks : list nat) : res (
 (* compute_gonality(max_gonality, find_strategies): cap 5 when strategies are collected, 1 otherwise *)
 Definition compute_gonality (fuel : nat) (g : graph) (maxg : nat) (fs : bool) : res (Z * list div) :=
   gon_search fuel g (if fs then 5%nat else 1%nat) (seq 1 maxg).
+
+(* ---- per-sink Dhar-based search (CFGonalityDhar.enhanced_dhar_gonality_test): chips on V - {q} surviving -1 at q ---- *)
+Definition test_at_q (fuel : nat) (g : graph) (q : nat) (P : div) : res bool := is_winnable fuel g (sub1 (nv g) P q).
+Fixpoint filter_res {A} (f : A -> res bool) (l : list A) : res (list A) :=
+  match l with [] => Done [] | x :: t =>
+    match f x, filter_res f t with Done b, Done r => Done (if b then x :: r else r) | _, _ => OutOfFuel end end.
+Definition off_q (n q k : nat) : list div := filter (fun P => nthZ P q =? 0) (placements n k).
+Fixpoint per_sink_search (fuel : nat) (g : graph) (q : nat) (ks : list nat) (dflt : nat) : res (nat * list div) :=
+  match ks with [] => Done (dflt, []) | k :: t =>
+    match filter_res (test_at_q fuel g q) (off_q (nv g) q k) with
+    | OutOfFuel => OutOfFuel | Done [] => per_sink_search fuel g q t dflt | Done l => Done (k, l) end end.
+Definition per_sink (fuel : nat) (g : graph) (q : nat) (maxg : nat) : res (nat * list div) := per_sink_search fuel g q (seq 1 maxg) (S maxg).
